@@ -289,6 +289,28 @@ pub fn limits() -> Vec<Limit> {
             });
         }
     }
+    // parameter lists of methods, constructors and static methods around the limit (how many a
+    // receiver takes away is the compiler's business: each instance is rejected or runs correctly)
+    for n in 253usize..=258 {
+        let params = names("a", n).join(", ");
+        let args = (0..n).map(|i| i.to_string()).collect::<Vec<_>>().join(", ");
+        let last = (n - 1).to_string();
+        v.push(Limit {
+            name: format!("method_params_{}", n),
+            source: format!("#[constructor(new)] class K {{ fn m(self, {}) {{ return a{}; }} }}\nprint(K.new().m({}));", params, n - 1, args),
+            expect: Expect::RejectOrPrints(vec![last.clone()]),
+        });
+        v.push(Limit {
+            name: format!("constructor_params_{}", n),
+            source: format!("class K {{ #[constructor] fn new(self, {}) {{ self.x = a{}; }} }}\nprint(K.new({}).x);", params, n - 1, args),
+            expect: Expect::RejectOrPrints(vec![last.clone()]),
+        });
+        v.push(Limit {
+            name: format!("static_method_params_{}", n),
+            source: format!("class K {{ #[static] fn s({}) {{ return a{}; }} }}\nprint(K.s({}));", params, n - 1, args),
+            expect: Expect::RejectOrPrints(vec![last.clone()]),
+        });
+    }
     // many captured variables, every one read (and written) through its own capture: a closure over
     // n variables of the enclosing function, the same through an intermediate function, and writes
     // through the captures read back in the declaring function
@@ -657,7 +679,7 @@ impl Property for C04 {
     }
 
     fn rule(&self) -> String {
-        "cases: (limits, exhaustive) one parameterised program per encoding limit at limit-1, limit, limit+1 (+2): forward jump distance for if/else/&&/||/while/try/break at 65534..65537 bytes with byte-exact filler, backward loop distance, call/method arguments, parameters (fn and lambda), vec/tuple/map elements and interpolation parts at 254..257, locals at 254..257, 250..257 plain variables followed by a catch variable, a loop variable, a local class, a local function or nested-block variables (each instance is rejected or runs correctly), captured variables at 255..258, closures over 127..250 variables each of which is read (directly and through an intermediate function) and written through its own capture, constants per chunk at 65535..65537 (numbers) and with the crossing constant a string, a global's name, a lambda, a named function or a class (65524..65536 numbers before it; each instance is rejected or runs correctly), interpolation depth 7..9; operand sweep: functions whose code ends in an operand byte of every value 0..255 as local slot, argument count, element count and captured-variable index; (scripts) every script of the repository's corpus that compiles; (programs*) generated programs of the mixed/class/scope profiles, with and without recorded-defect shapes; (far_code) generated programs of the exception, scope and mixed profiles placed behind 64-190 KiB of no-op statements in the same chunk, so that every code offset of the program exceeds 16 bits: verified, and run next to the unpadded program, whose printed values and outcome it must reproduce. Oracle: the bytecode verifier (abstract interpretation over every function: instruction boundaries, operand indices, one operand-stack height and one static handler stack per reachable pc, no pop below the frame base, final Return, line table length), the verifier's heights cross-checked against the interpreter's (chunk, pc, height) trace of the same run, no panic while running, for the limit family the output or rejection known by construction, and for the generated programs without recorded-defect shapes the printed values and outcome of the reference interpreter (a name resolved to another variable than the source means is well-formed code). Non-trivial: a verified function with >=1 branch and height above its arity, or any limit instance; distinct by program text.".into()
+        "cases: (limits, exhaustive) one parameterised program per encoding limit at limit-1, limit, limit+1 (+2): forward jump distance for if/else/&&/||/while/try/break at 65534..65537 bytes with byte-exact filler, backward loop distance, call/method arguments, parameters (fn and lambda; methods, constructors and static methods at 253..258), vec/tuple/map elements and interpolation parts at 254..257, locals at 254..257, 250..257 plain variables followed by a catch variable, a loop variable, a local class, a local function or nested-block variables (each instance is rejected or runs correctly), captured variables at 255..258, closures over 127..250 variables each of which is read (directly and through an intermediate function) and written through its own capture, constants per chunk at 65535..65537 (numbers) and with the crossing constant a string, a global's name, a lambda, a named function or a class (65524..65536 numbers before it; each instance is rejected or runs correctly), interpolation depth 7..9; operand sweep: functions whose code ends in an operand byte of every value 0..255 as local slot, argument count, element count and captured-variable index; (scripts) every script of the repository's corpus that compiles; (programs*) generated programs of the mixed/class/scope profiles, with and without recorded-defect shapes; (far_code) generated programs of the exception, scope and mixed profiles placed behind 64-190 KiB of no-op statements in the same chunk, so that every code offset of the program exceeds 16 bits: verified, and run next to the unpadded program, whose printed values and outcome it must reproduce. Oracle: the bytecode verifier (abstract interpretation over every function: instruction boundaries, operand indices, one operand-stack height and one static handler stack per reachable pc, no pop below the frame base, final Return, line table length), the verifier's heights cross-checked against the interpreter's (chunk, pc, height) trace of the same run, no panic while running, for the limit family the output or rejection known by construction, and for the generated programs without recorded-defect shapes the printed values and outcome of the reference interpreter (a name resolved to another variable than the source means is well-formed code). Non-trivial: a verified function with >=1 branch and height above its arity, or any limit instance; distinct by program text.".into()
     }
 
     fn assumptions(&self) -> Vec<String> {
